@@ -256,6 +256,78 @@ func (e *env) binary(x *Bin) interface{} {
 		}
 		panic(Unspec("nil operand"))
 	}
+	// Go integers of unsigned kind: the operation is integral like for signed ones. What is not fixed is what a
+	// negative value, an underflow or a value beyond the other kind's range means next to them.
+	if kl == kUint || kr == kUint {
+		asU := func(v interface{}, k numKind) uint64 {
+			if k == kUint {
+				return reflect.ValueOf(v).Uint()
+			}
+			n := asInt(v)
+			if n < 0 {
+				panic(Unspec("negative operand next to an unsigned one"))
+			}
+			return uint64(n)
+		}
+		switch {
+		case kl == kFloat || kr == kFloat:
+			for _, p := range []*interface{}{&l, &r} {
+				if kindOf(*p) == kFloat && asFloat(*p) < 0 {
+					panic(Unspec("negative operand next to an unsigned one"))
+				}
+				if kindOf(*p) == kUint {
+					u := reflect.ValueOf(*p).Uint()
+					if u > 1<<53 {
+						panic(Unspec("unsigned integer beyond 2^53 in a floating-point operation"))
+					}
+					*p = float64(u)
+				}
+			}
+			kl, kr = kindOf(l), kindOf(r)
+		case (kl == kUint || kl == kInt) && (kr == kUint || kr == kInt):
+			a, b := asU(l, kl), asU(r, kr)
+			if a > 1<<62 || b > 1<<62 {
+				panic(Unspec("unsigned operand beyond 2^62"))
+			}
+			var res uint64
+			switch x.Op {
+			case "+":
+				res = a + b
+			case "-":
+				if b > a {
+					panic(Unspec("unsigned subtraction below zero"))
+				}
+				res = a - b
+			case "*":
+				if a != 0 && b > (1<<62)/a {
+					panic(Unspec("unsigned multiplication overflow"))
+				}
+				res = a * b
+			case "/":
+				if b == 0 {
+					panic(Unspec("integer division by zero"))
+				}
+				res = a / b
+			case "%":
+				if b == 0 {
+					panic(Unspec("integer modulo zero"))
+				}
+				res = a % b
+			case "<":
+				return a < b
+			case "<=":
+				return a <= b
+			case ">":
+				return a > b
+			case ">=":
+				return a >= b
+			}
+			if kl == kUint {
+				return res // the result keeps the left operand's signedness
+			}
+			return int64(res)
+		}
+	}
 	numeric := func(k numKind) bool { return k == kInt || k == kFloat }
 	if !numeric(kl) {
 		if kl == kUint {
@@ -340,6 +412,19 @@ func (e *env) binary(x *Bin) interface{} {
 }
 
 func (e *env) equal(l, r interface{}, kl, kr numKind) bool {
+	// unsigned Go integers compare by value like signed ones
+	for _, p := range []struct {
+		v *interface{}
+		k *numKind
+	}{{&l, &kl}, {&r, &kr}} {
+		if *p.k == kUint {
+			u := reflect.ValueOf(*p.v).Uint()
+			if u > 1<<62 {
+				panic(Unspec("unsigned operand beyond 2^62"))
+			}
+			*p.v, *p.k = int64(u), kInt
+		}
+	}
 	switch {
 	case kl == kNil && kr == kNil:
 		return true
